@@ -5,8 +5,18 @@
 -/
 import ScionTime.Model.Filters
 import ScionTime.Proofs.C17
+import ScionTime.Gen.Client
 namespace ScionTime.C17
 open ScionTime.Filters ScionTime.F64
+
+/-- Pins: the float constants declared inside `(*NtimedFilter).Do` (regenerated from /repo on
+    every run by harness/extract/x_c17.go) are the model's. -/
+theorem C17_pin_filterAverage :
+    c20 = ofConst Gen.Client.ntimedFilterAverage_num Gen.Client.ntimedFilterAverage_den.toNat := by
+  decide +kernel
+theorem C17_pin_filterThreshold :
+    c3 = ofConst Gen.Client.ntimedFilterThreshold_num Gen.Client.ntimedFilterThreshold_den.toNat := by
+  decide +kernel
 
 /-! ## Lucky-packet filter: specification (independent of any sorting algorithm) -/
 
@@ -136,6 +146,19 @@ theorem C17_lucky_spec (cap pick : Nat) (hcap : 1 ≤ cap) (hpick : 1 ≤ pick)
   · intro hspec
     rw [hv0, C17_lucky_spec_unique _ _ _ _ hd hspec0 hspec]
 
+/-- Non-vacuity: capacity 3, pick 2, a history with a reset after the first sample; with the
+    new sample the window is (offset, delay) = (−3, 30), (0, 10), (−1, 16) — the sample of
+    delay 20 has been shifted out —, the two luckiest have offsets 0 and −1, and the filter
+    returns their midpoint −1 + (0 − (−1))/2 = −1. -/
+def exOps : List LOp :=
+  [.sample ⟨0, 19, 19, 40⟩, .reset, .sample ⟨0, 10, 10, 20⟩, .sample ⟨0, 12, 13, 31⟩,
+   .sample ⟨0, 5, 6, 11⟩]
+example : DistinctDelays
+    (lastN 3 ((samplesSince [] exOps ++ [(⟨0, 7, 7, 16⟩ : Sample)]).map Sample.meas)) := by
+  unfold DistinctDelays; decide +kernel
+example : (luckyDo (luckyFinal (luckyFresh 3 2) exOps) ⟨0, 7, 7, 16⟩).2 = some (-1) := by
+  decide +kernel
+
 /-- The zero-value filter returns the raw offset `ntp.ClockOffset` of every sample, whatever
     came before (and `Reset` changes nothing). -/
 theorem C17_lucky_zero_raw (ops : List LOp) (x : Sample) :
@@ -244,6 +267,20 @@ theorem C17_ntimed_raw_inbounds (e : Nat) (f : Ntimed) (x : Sample)
   · rw [hlo] at h2; cases h2
   · rw [hhi] at h2; cases h2
   · exact ⟨h1, h4⟩
+
+/-- Non-vacuity: a filter that has seen five samples (so `navg > 3`) gets a sixth one inside
+    its limits (branch 4); a sample with 40 ms extra upstream delay violates the lower limit
+    only and is filtered (branch 2). -/
+def exMs (a b c d : Int) : Sample := ⟨a * 1000000, b * 1000000, c * 1000000, d * 1000000⟩
+def exN : List NOp :=
+  [.sample 0 (exMs 0 10 10 20), .sample 0 (exMs 1000 1011 1011 1020),
+   .sample 0 (exMs 2000 2009 2009 2020), .sample 0 (exMs 3000 3010 3010 3021),
+   .sample 0 (exMs 4000 4011 4011 4020)]
+example :
+    let r := ntimedDoFull 0 (ntimedFinal Ntimed.fresh exN) (exMs 5000 5010 5010 5020)
+    r.failLo = false ∧ r.failHi = false ∧ gt r.state.navg c3 = true := by decide +kernel
+example : (ntimedDoFull 0 (ntimedFinal Ntimed.fresh exN) (exMs 5000 5050 5050 5060)).branch = 2 := by
+  decide +kernel
 
 /-- **ntimed_raw_early.** After a reset at clock epoch `e` (explicit `Reset`, or implied by
     `Do` noticing a new epoch — `C17_ntimed_epoch_change_is_reset`), while the epoch stays
